@@ -31,6 +31,7 @@ def propagator(REG, qualname, rel, n_min=1, params="i32[m]", requires=(), entail
         ghost=g,
         loops=loops or {},
         hints=list(hints),
-        arities=arities or [{"n": a} for a in range(n_min, n_min + 3)],
+        arities=arities or [{"n": a, "m": 0} for a in range(max(n_min, 1), max(n_min, 1) + 3)],
+        props=kw.pop("props", ["C05", "C06", "C07", "C14", "C16", "C01", "C08"]),
         **kw,
     )
